@@ -94,7 +94,7 @@ theorem Pre.bin_right {op : BinOp} {a b : Exp (Ext K)} {s : St (Ext K)} (h : Pre
 
 /-- the contract of the second call of a sequence. -/
 theorem Pre.after {e1 e2 : Exp (Ext K)} {req1 : Req} {s s1 : St (Ext K)} {c1 : Ctx (Ext K)}
-    (A : Spec Src e1 req1 s c1 s1) (hv : ∀ x ∈ varsOf e2, inScope s.domain x) (hd : DefinedE e2) :
+    (A : Spec Src e1 req1 s c1 s1) (hv : ∀ x ∈ varsOf e2, inScope s.domain x) (hd : FinE e2) :
     Pre Src e2 s1 :=
   ⟨A.inv, fun x hx => A.scopeMono (hv x hx), hd⟩
 
